@@ -263,3 +263,6 @@ m('rx3-client-limit-ignored', ['C20'], 'rsocket/rx_support/rx_rsocket.py',
 m('rx4-empty-observable-completion-swallowed', ['C20'], 'rsocket/reactivex/back_pressure_publisher.py',
   "                        elif isinstance(event, OnCompleted):\n                            observer.on_completed()\n                            return",
   "                        elif isinstance(event, OnCompleted):\n                            if i > 0 or next_n > 1:\n                                observer.on_completed()\n                            return")
+m('close-does-not-fail-late-requests (revert fix)', ['C11'], 'rsocket/rsocket_base.py',
+  "        # Requests made after the receiver had already ended (connection lost earlier) are still registered.\n        self.stop_all_streams()\n",
+  "")
